@@ -591,7 +591,19 @@ func (r *Run) handleCex(ld *Loaded, fn *ssa.Function, hr *HarnessResult, in *Int
 	if knownKey != "" {
 		tag = knownKey
 	}
-	path := filepath.Join(dir, fmt.Sprintf("%s-%s-%s.json", r.Prop, fn.Name(), sanitize(tag)))
+	// distinct per case parameters: shards run in parallel and must not overwrite each other's files
+	ptag := ""
+	if len(r.Params) > 0 {
+		keys := make([]string, 0, len(r.Params))
+		for k := range r.Params {
+			keys = append(keys, k)
+		}
+		sort.Strings(keys)
+		for _, k := range keys {
+			ptag += fmt.Sprintf("-%s%d", k, r.Params[k])
+		}
+	}
+	path := filepath.Join(dir, fmt.Sprintf("%s-%s-%s%s.json", r.Prop, fn.Name(), sanitize(tag), sanitize(ptag)))
 	data, _ := json.MarshalIndent(cf, "", " ")
 	os.WriteFile(path, data, 0o644)
 	verdict := "NOT-RUN"
